@@ -56,14 +56,14 @@ Definition go_ok (C : contracts) (fn : string) (p : prog) : Prop :=
 
 Definition act_safe (C : contracts) (fname : string) (H : held) (a : act) : Prop :=
   match a with
-  | Acq l _ => lookup l H = None
+  | Acq l _ => lookup l H = None /\ ranked (rank C) H l = true
   | Rel l m => lookup l H = Some m
   | Rd f => match guard_of C f with GLocks ls => rd_ok H ls = true \/ mem2 fname f (waived C) = true | _ => True end
   | Wr f => match guard_of C f with
             | GLocks ls => wr_ok H ls = true \/ mem2 fname f (waived C) = true
             | GImmutable => mem fname (constructors C) = true
             | GFree => True end
-  | User k => disjoint H (user_acquires C k) = true
+  | User k => disjoint H (user_acquires C k) = true /\ forallb (ranked (rank C) H) (user_acquires C k) = true
   end.
 Definition ev_safe (C : contracts) (fname : string) (H : held) (e : ev) : Prop :=
   match e with EA a => act_safe C fname H a | EGo p => go_ok C fname p end.
@@ -130,6 +130,38 @@ Proof.
   destruct (lookup l h) as [[|]|] eqn:E; try discriminate. rewrite (Hs _ _ E). reflexivity.
 Qed.
 
+(* the locks a function does not know about (held by its callers, not declared) all rank below every lock it may take:
+   what makes the lock-order check modular *)
+Definition rinv (rk : string -> nat) (decl : option (list string)) (H : held) : Prop :=
+  forall l', lookup l' H <> None -> declared decl l' = false -> forall l, declared decl l = true -> (rk l' < rk l)%nat.
+Lemma rinv_stable rk decl H H' : (forall l, declared decl l = false -> lookup l H' = lookup l H) -> rinv rk decl H -> rinv rk decl H'.
+Proof. intros Hst Hr l' Hl' Hd l Hl. apply (Hr l'); auto. rewrite <- (Hst l' Hd). exact Hl'. Qed.
+Lemma rinv_nil rk decl : rinv rk decl [].
+Proof. intros l' Hl'. cbn in Hl'. congruence. Qed.
+Lemma in_lookup (h : held) l m : In (l, m) h -> lookup l h <> None.
+Proof.
+  induction h as [|[l0 m0] t IH]; cbn; [tauto|]. intros [E|Hin].
+  - inversion E; subst. rewrite String.eqb_refl. discriminate.
+  - destruct (String.eqb l l0); [discriminate|auto].
+Qed.
+Lemma lookup_in (h : held) l : lookup l h <> None -> exists m, In (l, m) h.
+Proof.
+  induction h as [|[l0 m0] t IH]; cbn; [congruence|]. destruct (String.eqb l l0) eqn:E.
+  - apply String.eqb_eq in E. subst. eauto.
+  - intros Hn. destruct (IH Hn) as [m Hm]. eauto.
+Qed.
+(* from the check on the abstract set to the concrete one *)
+Lemma ranked_lift rk decl h H l :
+  (forall x, declared decl x = true -> lookup x H = lookup x h) -> rinv rk decl H -> declared decl l = true ->
+  ranked rk h l = true -> ranked rk H l = true.
+Proof.
+  intros Hex Hr Hl Hrk. unfold ranked in *. rewrite forallb_forall in *. intros [l' m'] Hin. cbn [fst].
+  apply Nat.ltb_lt. pose proof (in_lookup _ _ _ Hin) as Hne.
+  destruct (declared decl l') eqn:Ed.
+  - rewrite (Hex l' Ed) in Hne. destruct (lookup_in _ _ Hne) as [m Hm]. specialize (Hrk _ Hm). cbn in Hrk. apply Nat.ltb_lt in Hrk. exact Hrk.
+  - apply (Hr l' Hne Ed l Hl).
+Qed.
+
 Lemma act_eqb_eq a b : act_eqb a b = true -> a = b.
 Proof.
   destruct a, b; cbn; try discriminate; intros H;
@@ -161,14 +193,15 @@ Section Sound.
   Hypothesis all_checked : forall f body, fenv f = Some body -> check_fn C f body = [].
 
   Lemma step_act_sound fn decl h H a h' :
-    step_act C fn decl h a = ([], h') -> absrel decl h H ->
+    step_act C fn decl h a = ([], h') -> absrel decl h H -> rinv (rank C) decl H ->
     act_safe C fn H a /\ absrel decl h' (upd H a) /\ (forall l, declared decl l = false -> lookup l (upd H a) = lookup l H).
   Proof.
-    intros Hs [Hsub Hex]. destruct a as [l m|l m|f|f|k]; cbn [step_act act_safe upd] in *.
+    intros Hs [Hsub Hex] Hrinv. destruct a as [l m|l m|f|f|k]; cbn [step_act act_safe upd] in *.
     - destruct (declared decl l) eqn:Ed; [|inversion Hs].
-      destruct (lookup l h) eqn:El; inversion Hs; subst h'.
+      destruct (lookup l h) eqn:El; [inversion Hs|].
+      destruct (ranked (rank C) h l) eqn:Erk; inversion Hs; subst h'.
       assert (HlH : lookup l H = None) by (rewrite Hex; auto).
-      split; [exact HlH|]. split.
+      split; [split; [exact HlH|eapply ranked_lift; eauto]|]. split.
       + split.
         * intros l0 m0. cbn. destruct (String.eqb l0 l) eqn:E; auto.
         * intros l0 Hl0. cbn. destruct (String.eqb l0 l) eqn:E; auto.
@@ -197,23 +230,25 @@ Section Sound.
       + destruct (mem fn (constructors C)) eqn:E; inversion Hs; subst. repeat split; auto.
       + inversion Hs; subst. repeat split; auto.
     - destruct (disjoint h (user_acquires C k)) eqn:Ed; cbn [andb] in Hs; [|inversion Hs].
-      destruct (forallb (declared decl) (user_acquires C k)) eqn:Ef; inversion Hs; subst.
-      split; [|repeat split; auto].
-      apply disjoint_spec. intros l Hl. rewrite forallb_forall in Ef. specialize (Ef l Hl).
-      rewrite Hex by auto. rewrite disjoint_spec in Ed. auto.
+      destruct (forallb (declared decl) (user_acquires C k)) eqn:Ef; [|inversion Hs].
+      destruct (forallb (ranked (rank C) h) (user_acquires C k)) eqn:Erk; inversion Hs; subst.
+      split; [|repeat split; auto]. split.
+      + apply disjoint_spec. intros l Hl. rewrite forallb_forall in Ef. specialize (Ef l Hl).
+        rewrite Hex by auto. rewrite disjoint_spec in Ed. auto.
+      + rewrite forallb_forall in *. intros l Hl. eapply ranked_lift; eauto.
   Qed.
 
   Lemma run_defers_sound fn decl ds : forall h H h',
-    run_defers C fn decl h ds = ([], h') -> absrel decl h H ->
+    run_defers C fn decl h ds = ([], h') -> absrel decl h H -> rinv (rank C) decl H ->
     trace_safe C H (tag fn ds) /\ absrel decl h' (upds H (tag fn ds)) /\
     (forall l, declared decl l = false -> lookup l (upds H (tag fn ds)) = lookup l H).
   Proof.
-    induction ds as [|a t IH]; intros h H h' Hr Ha; cbn [run_defers] in Hr.
+    induction ds as [|a t IH]; intros h H h' Hr Ha Hri; cbn [run_defers] in Hr.
     - inversion Hr; subst. cbn. auto.
     - destruct (step_act C fn decl h a) as [e1 h1] eqn:E1. destruct (run_defers C fn decl h1 t) as [e2 h2] eqn:E2.
       inversion Hr as [[He Hh]]. apply app_nil_s in He as [-> ->]. subst h2.
-      destruct (step_act_sound _ _ _ _ _ _ E1 Ha) as [S1 [S2 S3]].
-      destruct (IH _ _ _ E2 S2) as [T1 [T2 T3]]. cbn [tag map trace_safe upds updE ev_safe fst snd].
+      destruct (step_act_sound _ _ _ _ _ _ E1 Ha Hri) as [S1 [S2 S3]].
+      destruct (IH _ _ _ E2 S2 (rinv_stable _ _ _ _ S3 Hri)) as [T1 [T2 T3]]. cbn [tag map trace_safe upds updE ev_safe fst snd].
       split; [split; assumption|]. split; [exact T2|].
       intros l Hl. rewrite T3, S3; auto.
   Qed.
@@ -261,7 +296,7 @@ Section Sound.
   Theorem check_sound :
     forall fn p ds t x ds', run fenv fn p ds t x ds' ->
     forall decl entry les h H res,
-      check C fn decl entry les p h ds = ([], res) -> absrel decl h H ->
+      check C fn decl entry les p h ds = ([], res) -> absrel decl h H -> rinv (rank C) decl H ->
       post decl entry les fn res H t x ds'.
   Proof.
     induction 1 as [ fn ds | fn a ds | fn a ds | fn n ds | fn ds
@@ -275,11 +310,11 @@ Section Sound.
                    | fn f body ds t x dsf Hf R IH Hxb
                    | fn p ds t x dsf R IH Hxb
                    | fn p ds ];
-      intros decl entry les h H res Hc Ha; cbn [check] in Hc.
+      intros decl entry les h H res Hc Ha Hri; cbn [check] in Hc.
     - (* skip *) inversion Hc; subst. split; [exact I|]. split; [auto|]. exists h. auto.
     - (* act *)
       destruct (step_act C fn decl h a) as [e h1] eqn:Es. inversion Hc; subst.
-      destruct (step_act_sound _ _ _ _ _ _ Es Ha) as [S1 [S2 S3]].
+      destruct (step_act_sound _ _ _ _ _ _ Es Ha Hri) as [S1 [S2 S3]].
       split; [cbn; auto|]. split; [cbn; auto|]. exists h1. auto.
     - (* defer *) inversion Hc; subst. split; [exact I|]. split; [auto|]. exists h. auto.
     - (* break *)
@@ -290,14 +325,14 @@ Section Sound.
       destruct (run_defers C fn decl h ds) as [e h1] eqn:Er. injection Hc as He Hres.
       apply app_nil_s in He as [-> He]. destruct (held_eqb h1 entry) eqn:E; [|discriminate].
       apply held_eqb_eq in E. subst h1.
-      destruct (run_defers_sound _ _ _ _ _ _ Er Ha) as [T1 [T2 T3]].
+      destruct (run_defers_sound _ _ _ _ _ _ Er Ha Hri) as [T1 [T2 T3]].
       split; [exact I|]. split; [auto|]. cbn [app upds]. auto.
     - (* seq, first part normal *)
       destruct (check C fn decl entry les p h ds) as [e1 [[h1 d1]|]] eqn:E1.
       + destruct (check C fn decl entry les q h1 d1) as [e2 r2] eqn:E2. injection Hc as He Hres.
         apply app_nil_s in He as [-> ->]. subst r2.
-        destruct (IH1 _ _ _ _ _ _ E1 Ha) as [T1 [F1 [h' [Eh A1]]]]. inversion Eh; subst h' d1.
-        destruct (IH2 _ _ _ _ _ _ E2 A1) as [T2 [F2 P2]].
+        destruct (IH1 _ _ _ _ _ _ E1 Ha Hri) as [T1 [F1 [h' [Eh A1]]]]. inversion Eh; subst h' d1.
+        destruct (IH2 _ _ _ _ _ _ E2 A1 (rinv_stable _ _ _ _ F1 Hri)) as [T2 [F2 P2]].
         split; [apply trace_safe_app; auto|]. split.
         * intros l Hl. rewrite upds_app, F2, F1; auto.
         * destruct x.
@@ -306,14 +341,14 @@ Section Sound.
              rewrite <- app_assoc, !upds_app. rewrite upds_app in P2b, P2c. split; [exact P2b|].
              intros l Hl. rewrite P2c, F1; auto.
           -- rewrite upds_app. exact P2.
-      + inversion Hc; subst. destruct (IH1 _ _ _ _ _ _ E1 Ha) as [_ [_ [h' [Eh _]]]]. discriminate.
+      + inversion Hc; subst. destruct (IH1 _ _ _ _ _ _ E1 Ha Hri) as [_ [_ [h' [Eh _]]]]. discriminate.
     - (* seq, first part leaves *)
       destruct (check C fn decl entry les p h ds) as [e1 [[h1 d1]|]] eqn:E1.
       + destruct (check C fn decl entry les q h1 d1) as [e2 r2] eqn:E2. injection Hc as He Hres.
         apply app_nil_s in He as [-> ->].
-        destruct (IH1 _ _ _ _ _ _ E1 Ha) as [T1 [F1 P1]]. split; [exact T1|]. split; [exact F1|].
+        destruct (IH1 _ _ _ _ _ _ E1 Ha Hri) as [T1 [F1 P1]]. split; [exact T1|]. split; [exact F1|].
         destruct x; [congruence|exact P1|exact P1].
-      + inversion Hc; subst. destruct (IH1 _ _ _ _ _ _ E1 Ha) as [T1 [F1 P1]]. split; [exact T1|]. split; [exact F1|].
+      + inversion Hc; subst. destruct (IH1 _ _ _ _ _ _ E1 Ha Hri) as [T1 [F1 P1]]. split; [exact T1|]. split; [exact F1|].
         destruct x; [congruence|exact P1|exact P1].
     - (* alt left *)
       destruct (check C fn decl entry les p h ds) as [e1 r1] eqn:E1.
@@ -325,9 +360,9 @@ Section Sound.
           + apply app_nil_s in He as [_ He]. apply app_nil_s in He as [_ He]. discriminate.
         - injection Hc as He Hres. apply app_nil_s in He as [-> _]. auto.
         - injection Hc as He Hres. apply app_nil_s in He as [-> _]. split; [reflexivity|].
-          intros ->. destruct (IH _ _ _ _ _ _ E1 Ha) as [_ [_ [h' [Eh _]]]]. subst. discriminate.
+          intros ->. destruct (IH _ _ _ _ _ _ E1 Ha Hri) as [_ [_ [h' [Eh _]]]]. subst. discriminate.
         - injection Hc as He Hres. apply app_nil_s in He as [-> _]. auto. }
-      destruct He as [-> Hr]. destruct (IH _ _ _ _ _ _ E1 Ha) as [T1 [F1 P1]].
+      destruct He as [-> Hr]. destruct (IH _ _ _ _ _ _ E1 Ha Hri) as [T1 [F1 P1]].
       split; [exact T1|]. split; [exact F1|]. destruct x; [rewrite (Hr eq_refl); exact P1|exact P1|exact P1].
     - (* alt right *)
       destruct (check C fn decl entry les p h ds) as [e1 r1] eqn:E1.
@@ -339,10 +374,10 @@ Section Sound.
             apply held_eqb_eq in Q1. apply acts_eqb_eq in Q2. subst. auto.
           + apply app_nil_s in He as [_ He]. apply app_nil_s in He as [_ He]. discriminate.
         - injection Hc as He Hres. apply app_nil_s in He as [_ ->]. split; [reflexivity|].
-          intros ->. destruct (IH _ _ _ _ _ _ E2 Ha) as [_ [_ [h' [Eh _]]]]. discriminate.
+          intros ->. destruct (IH _ _ _ _ _ _ E2 Ha Hri) as [_ [_ [h' [Eh _]]]]. discriminate.
         - injection Hc as He Hres. apply app_nil_s in He as [_ ->]. auto.
         - injection Hc as He Hres. apply app_nil_s in He as [_ ->]. auto. }
-      destruct He as [-> Hr]. destruct (IH _ _ _ _ _ _ E2 Ha) as [T1 [F1 P1]].
+      destruct He as [-> Hr]. destruct (IH _ _ _ _ _ _ E2 Ha Hri) as [T1 [F1 P1]].
       split; [exact T1|]. split; [exact F1|]. destruct x; [rewrite (Hr eq_refl); exact P1|exact P1|exact P1].
     - (* loop, zero iterations *)
       destruct (no_defer p) eqn:End; cbn [negb] in Hc; [|inversion Hc].
@@ -352,14 +387,14 @@ Section Sound.
       destruct (no_defer p) eqn:End; cbn [negb] in Hc; [|inversion Hc].
       pose proof (no_defer_run _ _ _ _ _ _ R1 End) as Hds. subst ds1.
       destruct (region_result _ _ _ _ _ _ _ _ _ Hc) as [r1 [E1 [-> Hh]]].
-      destruct (IH1 _ _ _ _ _ _ E1 Ha) as [T1 [F1 P1]].
+      destruct (IH1 _ _ _ _ _ _ E1 Ha Hri) as [T1 [F1 P1]].
       assert (A1 : absrel decl h (upds H t1)).
       { destruct Hx1 as [->| ->].
         - destruct P1 as [h' [Eh A]]. rewrite (Hh _ _ Eh) in A. exact A.
         - destruct P1 as [le [Hle A]]. cbn in Hle. inversion Hle; subst le. exact A. }
       assert (Hc2 : check C fn decl entry les (PLoop p) h ds = ([], Some (h, ds))).
       { cbn [check]. rewrite End. cbn [negb]. exact Hc. }
-      destruct (IH2 _ _ _ _ _ _ Hc2 A1) as [T2 [F2 P2]].
+      destruct (IH2 _ _ _ _ _ _ Hc2 A1 (rinv_stable _ _ _ _ F1 Hri)) as [T2 [F2 P2]].
       split; [apply trace_safe_app; auto|]. split.
       + intros l Hl. rewrite upds_app, F2, F1; auto.
       + destruct x.
@@ -372,7 +407,7 @@ Section Sound.
       destruct (no_defer p) eqn:End; cbn [negb] in Hc; [|inversion Hc].
       pose proof (no_defer_run _ _ _ _ _ _ R1 End) as Hds. subst ds1.
       destruct (region_result _ _ _ _ _ _ _ _ _ Hc) as [r1 [E1 [-> Hh]]].
-      destruct (IH1 _ _ _ _ _ _ E1 Ha) as [T1 [F1 P1]].
+      destruct (IH1 _ _ _ _ _ _ E1 Ha Hri) as [T1 [F1 P1]].
       split; [exact T1|]. split; [exact F1|].
       destruct x1 as [| |[|n]]; cbn [leave]; [congruence|exact P1| |exact P1].
       destruct P1 as [le [Hle A]]. cbn in Hle. inversion Hle; subst le. exists h. auto.
@@ -380,7 +415,7 @@ Section Sound.
       destruct (no_defer p) eqn:End; cbn [negb] in Hc; [|inversion Hc].
       pose proof (no_defer_run _ _ _ _ _ _ R End) as Hds. subst ds1.
       destruct (region_result _ _ _ _ _ _ _ _ _ Hc) as [r1 [E1 [-> Hh]]].
-      destruct (IH _ _ _ _ _ _ E1 Ha) as [T1 [F1 P1]].
+      destruct (IH _ _ _ _ _ _ E1 Ha Hri) as [T1 [F1 P1]].
       split; [exact T1|]. split; [exact F1|].
       destruct x as [| |[|n]]; cbn [leave].
       + destruct P1 as [h' [Eh A]]. rewrite (Hh _ _ Eh) in A. exists h. auto.
@@ -388,10 +423,11 @@ Section Sound.
       + destruct P1 as [le [Hle A]]. cbn in Hle. inversion Hle; subst le. exists h. auto.
       + exact P1.
     - (* call *)
-      injection Hc as He Hres. apply app_nil_s in He as [E1 He]. apply app_nil_s in He as [E2 E3].
+      injection Hc as He Hres. apply app_nil_s in He as [E1 He]. apply app_nil_s in He as [E2 E3]. apply app_nil_s in E3 as [E3 E4].
       destruct (covers h (requires C f)) eqn:Ecov; [|discriminate].
       destruct (disjoint h (acquires C f)) eqn:Edis; [|discriminate].
       destruct (forallb (declared decl) (acquires C f)) eqn:Esub; [|discriminate].
+      destruct (forallb (ranked (rank C) h) (acquires C f)) eqn:Erk; [|discriminate].
       pose proof (all_checked _ _ Hf) as Hck. unfold check_fn in Hck.
       apply app_nil_s in Hck as [Hdj Hck].
       destruct (disjoint (requires C f) (acquires C f)) eqn:Edj; [|discriminate].
@@ -401,17 +437,24 @@ Section Sound.
       { split.
         - intros l m Hl. apply Hsub. eapply covers_spec; eauto.
         - intros l Hl. cbn in Hl. apply mem_In in Hl. rewrite (Edj l Hl). rewrite Hex by (apply Esub; exact Hl). apply Edis. exact Hl. }
+      assert (Hri' : rinv (rank C) (Some (acquires C f)) H).
+      { intros l' Hl' Hd l Hl. cbn in Hl. apply mem_In in Hl.
+        destruct (declared decl l') eqn:Edl.
+        - rewrite (Hex l' Edl) in Hl'. destruct (lookup_in _ _ Hl') as [m0 Hm0].
+          rewrite forallb_forall in Erk. specialize (Erk l Hl). unfold ranked in Erk. rewrite forallb_forall in Erk.
+          specialize (Erk _ Hm0). cbn in Erk. apply Nat.ltb_lt. exact Erk.
+        - apply (Hri l' Hl' Edl l). apply Esub. exact Hl. }
       cbn [check] in Hck.
       destruct (check C f (Some (acquires C f)) (requires C f) [] body (requires C f) []) as [eb [[hb db]|]] eqn:Eb.
       + destruct (run_defers C f (Some (acquires C f)) hb db) as [er hr] eqn:Er. cbn [fst] in Hck.
         apply app_nil_s in Hck as [-> Hck]. apply app_nil_s in Hck as [-> Hck].
         destruct (held_eqb hr (requires C f)) eqn:Eq; [|discriminate]. apply held_eqb_eq in Eq. subst hr.
-        destruct (IH _ _ _ _ _ _ Eb Ha') as [T1 [F1 P1]].
+        destruct (IH _ _ _ _ _ _ Eb Ha' Hri') as [T1 [F1 P1]].
         assert (Hfin : trace_safe C (upds H t) (tag f dsf) /\ absrel (Some (acquires C f)) (requires C f) (upds H (t ++ tag f dsf)) /\
                        (forall l, declared (Some (acquires C f)) l = false -> lookup l (upds H (t ++ tag f dsf)) = lookup l H)).
         { destruct x; [|exact P1|discriminate].
           destruct P1 as [h' [Eh A]]. inversion Eh; subst h' db.
-          destruct (run_defers_sound _ _ _ _ _ _ Er A) as [D1 [D2 D3]]. rewrite upds_app. split; [exact D1|]. split; [exact D2|].
+          destruct (run_defers_sound _ _ _ _ _ _ Er A (rinv_stable _ _ _ _ F1 Hri')) as [D1 [D2 D3]]. rewrite upds_app. split; [exact D1|]. split; [exact D2|].
           intros l Hl. rewrite D3, F1; auto. }
         destruct Hfin as [G1 [G2 G3]].
         split; [apply trace_safe_app; auto|]. split.
@@ -425,7 +468,7 @@ Section Sound.
              ++ rewrite G2b by exact Em. apply mem_In in Em. rewrite (Edj l Em), (Edis l Em). reflexivity.
              ++ rewrite G3 by exact Em. auto.
       + cbn [fst] in Hck. subst eb.
-        destruct (IH _ _ _ _ _ _ Eb Ha') as [T1 [F1 P1]].
+        destruct (IH _ _ _ _ _ _ Eb Ha' Hri') as [T1 [F1 P1]].
         assert (Hfin : trace_safe C (upds H t) (tag f dsf) /\ absrel (Some (acquires C f)) (requires C f) (upds H (t ++ tag f dsf)) /\
                        (forall l, declared (Some (acquires C f)) l = false -> lookup l (upds H (t ++ tag f dsf)) = lookup l H)).
         { destruct x; [|exact P1|discriminate]. destruct P1 as [h' [Eh A]]. discriminate. }
@@ -445,17 +488,17 @@ Section Sound.
       + destruct (run_defers C fn decl hb db) as [er hr] eqn:Er. injection Hc as He Hres.
         apply app_nil_s in He as [-> He]. apply app_nil_s in He as [-> He].
         destruct (held_eqb hr h) eqn:Eq; [|discriminate]. apply held_eqb_eq in Eq. subst hr.
-        destruct (IH _ _ _ _ _ _ Eb Ha) as [T1 [F1 P1]].
+        destruct (IH _ _ _ _ _ _ Eb Ha Hri) as [T1 [F1 P1]].
         assert (Hfin : trace_safe C (upds H t) (tag fn dsf) /\ absrel decl h (upds H (t ++ tag fn dsf)) /\
                        (forall l, declared decl l = false -> lookup l (upds H (t ++ tag fn dsf)) = lookup l H)).
         { destruct x; [|exact P1|discriminate].
           destruct P1 as [h' [Eh A]]. inversion Eh; subst h' db.
-          destruct (run_defers_sound _ _ _ _ _ _ Er A) as [D1 [D2 D3]]. rewrite upds_app. split; [exact D1|]. split; [exact D2|].
+          destruct (run_defers_sound _ _ _ _ _ _ Er A (rinv_stable _ _ _ _ F1 Hri)) as [D1 [D2 D3]]. rewrite upds_app. split; [exact D1|]. split; [exact D2|].
           intros l Hl. rewrite D3, F1; auto. }
         destruct Hfin as [G1 [G2 G3]].
         split; [apply trace_safe_app; auto|]. split; [exact G3|]. exists h. auto.
       + inversion Hc; subst.
-        destruct (IH _ _ _ _ _ _ Eb Ha) as [T1 [F1 P1]].
+        destruct (IH _ _ _ _ _ _ Eb Ha Hri) as [T1 [F1 P1]].
         assert (Hfin : trace_safe C (upds H t) (tag fn dsf) /\ absrel decl h (upds H (t ++ tag fn dsf)) /\
                        (forall l, declared decl l = false -> lookup l (upds H (t ++ tag fn dsf)) = lookup l H)).
         { destruct x; [|exact P1|discriminate]. destruct P1 as [h' [Eh A]]. discriminate. }
@@ -465,10 +508,10 @@ Section Sound.
       assert (Hgo : go_ok C fn p /\ res = Some (h, ds)).
       { unfold go_ok. destruct (check C fn None [] [] p [] []) as [e1 [[h1 d1]|]] eqn:E1.
         - destruct (run_defers C fn None h1 d1) as [e2 h2] eqn:E2. injection Hc as He Hres.
-          apply app_nil_s in He as [-> He]. apply app_nil_s in He as [-> He].
+          apply app_nil_s in He as [_ He]. apply app_nil_s in He as [-> He]. apply app_nil_s in He as [-> He].
           destruct (held_eqb h2 []) eqn:Eq; [|discriminate]. apply held_eqb_eq in Eq. subst h2.
           split; [|auto]. exists (Some (h1, d1)). split; [reflexivity|exact E2].
-        - injection Hc as He Hres. subst e1. split; [|auto]. exists None. split; [reflexivity|exact I]. }
+        - injection Hc as He Hres. apply app_nil_s in He as [_ He]. subst e1. split; [|auto]. exists None. split; [reflexivity|exact I]. }
       destruct Hgo as [Hgo ->].
       split; [cbn; auto|]. split; [cbn; auto|]. exists h. auto.
   Qed.
@@ -485,9 +528,10 @@ Section Sound.
       assert (Hd : disjoint [] (acquires C f) = true) by (apply disjoint_spec; reflexivity).
       assert (Hs : forallb (declared (Some (acquires C f))) (acquires C f) = true).
       { apply forallb_forall. intros l Hl. cbn. apply mem_In. exact Hl. }
-      rewrite Hd, Hs. reflexivity. }
+      assert (Hk : forallb (ranked (rank C) []) (acquires C f) = true) by (apply forallb_forall; reflexivity).
+      rewrite Hd, Hs, Hk. reflexivity. }
     assert (Ha : absrel (Some (acquires C f)) [] []) by (split; auto).
-    destruct (check_sound _ _ _ _ _ _ Hcall _ _ _ _ _ _ Hck Ha) as [T _]. exact T.
+    destruct (check_sound _ _ _ _ _ _ Hcall _ _ _ _ _ _ Hck Ha (rinv_nil _ _)) as [T _]. exact T.
   Qed.
 
   (* a started goroutine whose body was accepted (go_ok) is safe from the empty lock set *)
@@ -496,11 +540,25 @@ Section Sound.
   Proof.
     intros [res [Hck Hd]] Hrun Hx.
     assert (Ha : absrel None [] []) by (split; auto).
-    destruct (check_sound _ _ _ _ _ _ Hrun _ _ _ _ _ _ Hck Ha) as [T1 [F1 P1]].
+    destruct (check_sound _ _ _ _ _ _ Hrun _ _ _ _ _ _ Hck Ha (rinv_nil _ _)) as [T1 [F1 P1]].
     apply trace_safe_app. split; [exact T1|].
     destruct x; [|exact (proj1 P1)|discriminate].
     destruct P1 as [h' [-> A]].
-    destruct (run_defers_sound _ _ _ _ _ _ Hd A) as [D1 _]. exact D1.
+    destruct (run_defers_sound _ _ _ _ _ _ Hd A (rinv_stable _ _ _ _ F1 (rinv_nil _ _))) as [D1 _]. exact D1.
+  Qed.
+
+  (* ... and ends with every lock released *)
+  Lemma go_final_empty fn p t x ds' :
+    go_ok C fn p -> run fenv fn p [] t x ds' -> is_brk x = false -> forall l, lookup l (upds [] (t ++ tag fn ds')) = None.
+  Proof.
+    intros [res [Hck Hd]] Hrun Hx l.
+    assert (Ha : absrel None [] []) by (split; auto).
+    destruct (check_sound _ _ _ _ _ _ Hrun _ _ _ _ _ _ Hck Ha (rinv_nil _ _)) as [T1 [F1 P1]].
+    destruct x; [| |discriminate].
+    - destruct P1 as [h' [-> A]].
+      destruct (run_defers_sound _ _ _ _ _ _ Hd A (rinv_stable _ _ _ _ F1 (rinv_nil _ _))) as [_ [[_ D2] _]].
+      rewrite upds_app. rewrite D2 by reflexivity. reflexivity.
+    - destruct P1 as [_ [[_ A2] _]]. rewrite A2 by reflexivity. reflexivity.
   Qed.
 
   Lemma safe_spawn H t fn p : trace_safe C H t -> In (fn, EGo p) t -> go_ok C fn p.
@@ -522,6 +580,24 @@ Section Sound.
     induction 1 as [f body Hf Hr|fn body t0 x0 ds0 fn' p Hth IH Hrun0 Hx0 Hin]; intros t x ds' Hrun Hx.
     - eapply entry_point_safe; eauto.
     - eapply go_sound; eauto. specialize (IH _ _ _ Hrun0 Hx0). apply trace_safe_app in IH as [IH _].
+      eapply safe_spawn; eauto.
+  Qed.
+  Theorem thread_balanced fn body : thread fn body ->
+    forall t x ds', run fenv fn body [] t x ds' -> is_brk x = false -> forall l, lookup l (upds [] (t ++ tag fn ds')) = None.
+  Proof.
+    induction 1 as [f body Hf Hr|fn body t0 x0 ds0 fn' p Hth IH Hrun0 Hx0 Hin]; intros t x ds' Hrun Hx l.
+    - assert (Hcall : run fenv f (PCall f) [] (t ++ tag f ds') XN []) by (eapply RCall; eauto).
+      assert (Hck : check C f None [] [] (PCall f) [] [] = ([], Some ([], []))).
+      { cbn [check]. rewrite Hr. cbn [covers forallb].
+        assert (Hd : disjoint [] (acquires C f) = true) by (apply disjoint_spec; reflexivity).
+        assert (Hs : forallb (declared None) (acquires C f) = true) by (apply forallb_forall; reflexivity).
+        assert (Hk : forallb (ranked (rank C) []) (acquires C f) = true) by (apply forallb_forall; reflexivity).
+        rewrite Hd, Hs, Hk. reflexivity. }
+      assert (Ha : absrel None [] []) by (split; auto).
+      destruct (check_sound _ _ _ _ _ _ Hcall _ _ _ _ _ _ Hck Ha (rinv_nil _ _)) as [_ [_ [h' [Eh [_ A2]]]]].
+      inversion Eh; subst h'. rewrite A2 by reflexivity. reflexivity.
+    - eapply go_final_empty; eauto.
+      pose proof (thread_safe _ _ Hth _ _ _ Hrun0 Hx0) as Hs. apply trace_safe_app in Hs as [Hs _].
       eapply safe_spawn; eauto.
   Qed.
 End Sound.
@@ -575,13 +651,13 @@ Theorem callback_never_under C H t i fn k l :
   lookup l (held_at H t i) = None.
 Proof.
   intros Hs Hn Hl. pose proof (trace_safe_nth _ _ _ _ _ _ Hs Hn) as Hsafe. cbn in Hsafe.
-  rewrite disjoint_spec in Hsafe. auto.
+  destruct Hsafe as [Hsafe _]. rewrite disjoint_spec in Hsafe. auto.
 Qed.
 
 (* a thread never blocks on a lock it already holds, and only releases what it holds *)
 Theorem no_self_deadlock C H t i fn l m :
   trace_safe C H t -> nth_error t i = Some (fn, EA (Acq l m)) -> lookup l (held_at H t i) = None.
-Proof. intros Hs Hn. exact (trace_safe_nth _ _ _ _ _ _ Hs Hn). Qed.
+Proof. intros Hs Hn. exact (proj1 (trace_safe_nth _ _ _ _ _ _ Hs Hn)). Qed.
 
 (* every lock taken by a thread that starts and ends a run with the empty set was released: the number of
    acquisitions of l equals the number of releases when the final set is empty -- stated as: the final lock set of
@@ -597,9 +673,10 @@ Proof.
   { cbn [check]. rewrite Hr. cbn [covers forallb].
     assert (Hd : disjoint [] (acquires C f) = true) by (apply disjoint_spec; reflexivity).
     assert (Hs : forallb (declared None) (acquires C f) = true) by (apply forallb_forall; reflexivity).
-    rewrite Hd, Hs. reflexivity. }
+    assert (Hk : forallb (ranked (rank C) []) (acquires C f) = true) by (apply forallb_forall; reflexivity).
+    rewrite Hd, Hs, Hk. reflexivity. }
   assert (Ha : absrel None [] []) by (split; auto).
-  destruct (check_sound C fenv all_checked _ _ _ _ _ _ Hcall _ _ _ _ _ _ Hck Ha) as [_ [_ [h' [Eh [_ A2]]]]].
+  destruct (check_sound C fenv all_checked _ _ _ _ _ _ Hcall _ _ _ _ _ _ Hck Ha (rinv_nil _ _)) as [_ [_ [h' [Eh [_ A2]]]]].
   inversion Eh; subst h'. rewrite A2 by reflexivity. reflexivity.
 Qed.
 
@@ -660,11 +737,11 @@ Section NoRace.
     intros [S1 S2 E12 E21] Hs. destruct Hs as [H1 a T1 H2 T2 Hc|H1 T1 H2 a T2 Hc]; cbn [h1 t1 h2 t2] in *.
     - destruct S1 as [Sa S1].
       destruct (excl_upd_self H1 H2 (snd a) E12 E21 Hc) as [N1 N2].
-      { intros l m Ha. rewrite Ha in Sa. exact Sa. }
+      { intros l m Ha. rewrite Ha in Sa. exact (proj1 Sa). }
       constructor; cbn [h1 t1 h2 t2]; assumption.
     - destruct S2 as [Sa S2].
       destruct (excl_upd_self H2 H1 (snd a) E21 E12 Hc) as [N1 N2].
-      { intros l m Ha. rewrite Ha in Sa. exact Sa. }
+      { intros l m Ha. rewrite Ha in Sa. exact (proj1 Sa). }
       constructor; cbn [h1 t1 h2 t2]; assumption.
   Qed.
 
